@@ -205,7 +205,13 @@ func bufOnlyRecycled(p *Program, callee *ssa.Function, arg ssa.Value, cs ssa.Cal
 			}
 		case ssa.CallInstruction:
 			f := staticCallee(x)
-			if f == nil || f.String() != "(*bufio.Writer).Reset" {
+			if f == nil {
+				return false
+			}
+			switch f.String() {
+			case "(*bufio.Writer).Reset", "(*bufio.Writer).Flush", "(*bufio.Writer).Buffered", "(*bufio.Writer).Available", "(*bufio.Writer).Size":
+				// (a helper that finishes the output — `flushSyncClose(br, f)` — writes nothing new through it)
+			default:
 				return false
 			}
 		default:
@@ -339,6 +345,12 @@ func r15bIn(c *RuleCtx, props []string, fn *ssa.Function, file ssa.Value, acqPos
 					if callee != nil && bufioWrapper(c.p, callee) == ai {
 						// a constructor of the buffered writer (`getMergeWriter(f)`): like bufio.NewWriterSize
 						bufw, _ = cs.(*ssa.Call)
+						continue
+					}
+					if callee != nil && c.p.InZap(callee) && callee.Signature.Results().Len() == 1 && isNamed(callee.Signature.Results().At(0).Type(), zapPkgPath, "CountHashWriter") && ownerOfType(c.p.owners, root(a).Type()) != nil {
+						// the counting writer built straight on the file's owner, which buffers inside
+						// (`NewCountHashWriter(out)` with `func (o *owner) Write(p) { return o.bw.Write(p) }`)
+						counter, _ = cs.(*ssa.Call)
 						continue
 					}
 					if callee != nil && c.p.InZap(callee) && callee.Parent() == nil && len(callee.Blocks) > 0 && ai < len(callee.Params) && (isNamed(callee.Params[ai].Type(), "os", "File") || isWriterInterface(callee.Params[ai].Type())) && depth < 2 {
@@ -640,7 +652,7 @@ func ruleR17() *Rule {
 						}
 						return nil
 					})
-					condTr := func(cond ssa.Value, outcome bool, ev uint64, _ func(ssa.Value) ssa.Value) uint64 {
+					condTr := func(cond ssa.Value, outcome bool, ev uint64, actual func(ssa.Value) ssa.Value) uint64 {
 						if isBoolParamNamed(cond, "fieldsSame") {
 							if outcome {
 								return ev | evFS
@@ -648,19 +660,19 @@ func ruleR17() *Rule {
 							return ev &^ evFS
 						}
 						if bo, ok := cond.(*ssa.BinOp); ok && bo.Op == token.EQL && outcome {
-							if isNilConst(bo.Y) && isDropOfSeg(bo.X) {
+							if isNilConst(bo.Y) && isDropOfSeg(actual(bo.X)) {
 								return ev | evDE
 							}
 							if k, ok := constUint64(bo.Y); ok && k == 0 {
 								if call, ok := bo.X.(*ssa.Call); ok {
-									if f := call.Call.StaticCallee(); f != nil && f.Name() == "GetCardinality" && isDropOfSeg(call.Call.Args[0]) {
+									if f := call.Call.StaticCallee(); f != nil && f.Name() == "GetCardinality" && isDropOfSeg(actual(call.Call.Args[0])) {
 										return ev | evDE
 									}
 								}
 							}
 						}
 						if call, ok := cond.(*ssa.Call); ok && outcome {
-							if f := call.Call.StaticCallee(); f != nil && f.Name() == "IsEmpty" && isDropOfSeg(call.Call.Args[0]) {
+							if f := call.Call.StaticCallee(); f != nil && f.Name() == "IsEmpty" && isDropOfSeg(actual(call.Call.Args[0])) {
 								return ev | evDE
 							}
 						}
@@ -672,7 +684,8 @@ func ruleR17() *Rule {
 						if !ok {
 							return ev
 						}
-						return condTr(iff.Cond, succIdx == 0, ev, func(v ssa.Value) ssa.Value { return v })
+						// (a predicate helper — `nothingDropped(dropsI)` — is read through its body)
+						return pa.learn(iff.Cond, succIdx == 0, ev)
 					}
 					pa.run(0)
 					fs, de := true, true
